@@ -2,6 +2,7 @@
 //! compact-field corruption of valid encodings, all short byte strings, value- and text-level JSON
 //! faults. Cases run in child processes (an abort is attributed to the case in progress).
 
+use vcommon::lit;
 use crate::alloc;
 use scale::{Decode, Encode};
 use scale_info::{PortableRegistry, Registry};
@@ -35,10 +36,10 @@ pub fn seeds() -> Vec<(String, PortableRegistry)> {
     out.push(("u1:prims".into(), by(&["u8", "bool", "str", "char", "()"])));
     let d = regspace::dom(false);
     for (i, df) in regspace::def_reps(&d).into_iter().enumerate() {
-        out.push((format!("regspace:def{i}"), PortableRegistry { types: vec![scale_info::PortableType::new(0, regspace::mk(vec!["p".into()], regspace::param_reps(), df, vec!["d".into()]))] }));
+        out.push((format!("regspace:def{i}"), PortableRegistry { types: vec![lit::entry(0, regspace::mk(vec!["p".into()], regspace::param_reps(), df, vec!["d".into()]))] }));
     }
     let reps = regspace::entry_reps(false);
-    out.push(("regspace:three-entries".into(), PortableRegistry { types: reps.iter().take(4).enumerate().map(|(i, t)| scale_info::PortableType::new(i as u32, t.clone())).collect() }));
+    out.push(("regspace:three-entries".into(), PortableRegistry { types: reps.iter().take(4).enumerate().map(|(i, t)| lit::entry(i as u32, t.clone())).collect() }));
     out.push(("empty".into(), PortableRegistry { types: vec![] }));
     let mut all = Registry::new();
     for m in &u {
